@@ -45,6 +45,7 @@ type accessRec struct {
 	wg     int   // goroutine index of last write (-1 none)
 	wclk   int32
 	wsite  string
+	watom  bool // last write was an atomic operation
 	reads  map[int]int32 // goroutine -> clock of its last read since the last write
 	rsites map[int]string
 }
@@ -176,6 +177,24 @@ func (e *Engine) raceMap(s *State, gi int, obj int, write bool, in ssa.Instructi
 }
 
 func (e *Engine) raceCell(s *State, gi int, key string, write bool, site string) {
+	e.raceCell2(s, gi, key, write, site, false)
+}
+
+// raceAtomic records an atomic read-modify-write of a cell: it conflicts with plain accesses
+// of other goroutines that are not ordered with it, never with other atomic operations.
+func (e *Engine) raceAtomic(s *State, gi int, p Ptr) {
+	if s.race == nil || p.obj <= 0 || e.inInit {
+		return
+	}
+	ok, fn := e.inGoatCode(s, gi)
+	if !ok {
+		// atomics are called from goat code through the sync/atomic wrappers: use the caller frame
+		fn = e.siteGoat(s, gi)
+	}
+	e.raceCell2(s, gi, ptrKey(p), true, fn+" (atomic)", true)
+}
+
+func (e *Engine) raceCell2(s *State, gi int, key string, write bool, site string, atomic bool) {
 	r := s.race
 	vc := r.vcOf(gi)
 	rec := r.access[key]
@@ -188,7 +207,7 @@ func (e *Engine) raceCell(s *State, gi int, key string, write bool, site string)
 		e.report(s, "race", label, a, "data race ("+kind+") between g"+s.gs[gi].id+" at "+site+" and g"+s.gs[otherG].id+" at "+otherSite, nil, nil)
 	}
 	if rec != nil {
-		if rec.wg >= 0 && rec.wg != gi && rec.wclk > vc.get(rec.wg) {
+		if rec.wg >= 0 && rec.wg != gi && rec.wclk > vc.get(rec.wg) && !(atomic && rec.watom) {
 			if write {
 				report(rec.wg, rec.wsite, "write-write")
 			} else {
@@ -213,7 +232,7 @@ func (e *Engine) raceCell(s *State, gi int, key string, write bool, site string)
 		*nr = *rec
 	}
 	if write {
-		nr.wg, nr.wclk, nr.wsite = gi, vc.get(gi), site
+		nr.wg, nr.wclk, nr.wsite, nr.watom = gi, vc.get(gi), site, atomic
 		nr.reads, nr.rsites = nil, nil
 	} else {
 		reads := make(map[int]int32, len(nr.reads)+1)
